@@ -643,6 +643,70 @@ pub fn run(seed: u64, n: usize, family: &str, out: &str, stats_path: Option<&str
     0
 }
 
+/// The numeric cells of the hops table as they appear on the captured screen (located by the positions of the
+/// column headings), and the values of the displayed state for the same hops.  Fixed point: tenths for what the
+/// screen shows, thousandths of a millisecond for the state.
+fn table_rows(app: &TuiApp, rows: &[String], flow_known: bool) -> (Vec<Value>, Vec<Value>) {
+    let mut trows = Vec::new();
+    let mut srows = Vec::new();
+    if !flow_known || app.show_help || app.show_settings {
+        return (trows, srows);
+    }
+    let Some(hi) = rows.iter().position(|r| r.contains("Loss%") && r.contains("Snd") && r.contains("Recv") && r.contains("StDev")) else {
+        return (trows, srows);
+    };
+    let header: Vec<char> = rows[hi].chars().collect();
+    // the headings are single words, left aligned with their column: a cell spans from the start of its heading
+    // to the start of the next one (the column order can be edited from the settings dialog)
+    let mut starts: Vec<(usize, String)> = Vec::new();
+    let mut i = 0;
+    while i < header.len() {
+        if header[i] != ' ' && header[i] != '│' && header[i] != '|' {
+            let j = (i..header.len()).find(|k| header[*k] == ' ' || header[*k] == '│').unwrap_or(header.len());
+            starts.push((i, header[i..j].iter().collect()));
+            i = j;
+        } else {
+            i += 1;
+        }
+    }
+    let span = |label: &str| -> Option<(usize, usize)> {
+        let k = starts.iter().position(|(_, l)| l == label)?;
+        Some((starts[k].0, starts.get(k + 1).map_or(header.len().saturating_sub(1), |n| n.0)))
+    };
+    let labels = ["#", "Loss%", "Snd", "Recv", "Last", "Avg", "Best", "Wrst", "StDev"];
+    let Some(spans) = labels.iter().map(|l| span(l)).collect::<Option<Vec<_>>>() else {
+        return (trows, srows);
+    };
+    let x10 = |s: &str| -> i64 {
+        let s = s.trim().trim_end_matches('%');
+        if s.is_empty() {
+            return -1;
+        }
+        match s.split_once('.') {
+            Some((a, b)) if b.len() == 1 => a.parse::<i64>().ok().zip(b.parse::<i64>().ok()).map_or(-2, |(a, b)| a * 10 + b),
+            _ => -2,
+        }
+    };
+    for r in rows.iter().skip(hi + 1) {
+        let cs: Vec<char> = r.chars().collect();
+        if cs.len() < header.len() || cs.iter().any(|c| *c == '╰' || *c == '└') {
+            break;
+        }
+        let cell = |k: usize| -> String { cs[spans[k].0..spans[k].1].iter().collect::<String>().trim().to_string() };
+        // the first line of a hop carries its ttl (further lines list more addresses)
+        let Ok(ttl) = cell(0).parse::<u8>() else { continue };
+        let (Ok(snd), Ok(recv)) = (cell(2).parse::<i64>(), cell(3).parse::<i64>()) else { continue };
+        trows.push(json!({"ttl":ttl,"loss":x10(&cell(1)),"snd":snd,"recv":recv,"last":x10(&cell(4)),"avg":x10(&cell(5)),"best":x10(&cell(6)),
+            "wrst":x10(&cell(7)),"sd":x10(&cell(8))}));
+    }
+    let ms = |v: f64| -> i64 { (v * 1000.0).round() as i64 };
+    for h in app.tracer_data().hops_for_flow(app.selected_flow) {
+        srows.push(json!({"ttl":h.ttl(),"sent":h.total_sent(),"recv":h.total_recv(),"last":h.last_ms().map_or(-1, ms),"avg":ms(h.avg_ms()),
+            "best":h.best_ms().map_or(-1, ms),"wrst":h.worst_ms().map_or(-1, ms),"sd":ms(h.stddev_ms())}));
+    }
+    (trows, srows)
+}
+
 fn frame_event(app: &TuiApp, sh: &Shared, last_key: &str) -> Value {
     let st: &State = app.tracer_data();
     let flow = app.selected_flow;
@@ -658,6 +722,7 @@ fn frame_event(app: &TuiApp, sh: &Shared, last_key: &str) -> Value {
     let naddrs_sel = if sel >= 0 && (sel as usize) < hops.len() { hops[sel as usize].1.len() as i64 } else { -1 };
     let rows = sh.rows();
     let text = rows.join("\n");
+    let (trows, srows) = table_rows(app, &rows, flow_known);
     // which hops' addresses are visible anywhere on the screen (all flows' hops share the addresses of
     // the default flow)
     let all_hops: Vec<(u8, Vec<IpAddr>)> = st.hops().iter().map(|h| (h.ttl(), h.addrs().copied().collect())).collect();
@@ -694,6 +759,6 @@ fn frame_event(app: &TuiApp, sh: &Shared, last_key: &str) -> Value {
         "fc":app.flow_counts.iter().map(|(id, _)| id.0).collect::<Vec<_>>(),"naddrs_sel":naddrs_sel,"max_addrs":app.tui_config.max_addrs.map_or(-1, i64::from),
         "w":sh.w,"h":sh.h,"found":found,"tfound":tfound,"resp":resp,"src_found":text.contains(&SRC.to_string()),"target_found":text.contains(&target),
         "rows":settings_rows(app),"cols":app_columns(app).into_iter().map(|(n, s)| json!({"id":n,"shown":s})).collect::<Vec<_>>(),
-        "hops0":all_hops.len(),"addrs0":all_hops.iter().map(|(_, a)| a.len()).collect::<Vec<_>>(),
+        "trows":trows,"srows":srows,"hops0":all_hops.len(),"addrs0":all_hops.iter().map(|(_, a)| a.len()).collect::<Vec<_>>(),
         "key":last_key,"amode":format!("{:?}", app.tui_config.address_mode)})
 }
